@@ -36,6 +36,20 @@ def _check(hyps, goal, timeout_ms, tactic=None):
   return r, (s.model() if r == 'sat' else None)
 
 
+def _syntactic_nonneg_goal(goal):
+  """goal of the form  t >= 0  /  0 <= t  with t a syntactic sum of squares"""
+  from .core import syntactically_nonneg, _num_value
+  if not z3.is_app(goal) or goal.num_args() != 2:
+    return False
+  k = goal.decl().kind()
+  a, b = goal.arg(0), goal.arg(1)
+  if k == z3.Z3_OP_GE and _num_value(b) == 0:
+    return syntactically_nonneg(a)
+  if k == z3.Z3_OP_LE and _num_value(a) == 0:
+    return syntactically_nonneg(b)
+  return False
+
+
 def prove(hyps, goal, timeout_ms=60000, tactic=None):
   """Checks  /\\ hyps -> goal.  Returns ('unsat', None) when it holds for every value,
   ('sat', model) with a counter-model, ('unknown', None) otherwise.
@@ -47,6 +61,10 @@ def prove(hyps, goal, timeout_ms=60000, tactic=None):
   g = z3.simplify(goal, som=True, sort_sums=True, som_blowup=10**6)
   STATS['solver_s'] += time.time() - t0
   if z3.is_true(g):
+    STATS['proof_unsat'] += 1
+    STATS['by_normaliser'] = STATS.get('by_normaliser', 0) + 1
+    return 'unsat', None
+  if _syntactic_nonneg_goal(goal):
     STATS['proof_unsat'] += 1
     STATS['by_normaliser'] = STATS.get('by_normaliser', 0) + 1
     return 'unsat', None
